@@ -5380,7 +5380,12 @@ class Entity(object, metaclass=EntityMeta):
         for obj2 in obj._session_cache_.objects_to_save[:obj._save_pos_]:
             if obj2 is None or obj2 in dependent_objects: continue
             if obj2._status_ not in ('modified', 'marked_to_delete'): continue
-            if obj2._row_refers_to_(obj): obj2._save_(dependent_objects)
+            if not obj2._row_refers_to_(obj): continue
+            if obj2._status_ == 'marked_to_delete':
+                # a row that is deleted ahead of its turn here has rows of its own waiting in front of it
+                dependent_objects.append(obj2)
+                obj2._save_referring_rows_first_(dependent_objects)
+            if obj2._status_ in ('modified', 'marked_to_delete'): obj2._save_(dependent_objects)
     def _update_dbvals_(obj, after_create, new_dbvals):
         bits = obj._bits_
         vals = obj._vals_
